@@ -1,5 +1,6 @@
 import Golib.Proto
 import Golib.Model.C02Skip
+import Golib.Model.C02Ptr
 
 /-
 C02 driver.  Header `@ C02 <kind> <ktype> <cmp> <dump|nodump>`:
@@ -257,6 +258,152 @@ def stepH (io : KeyIO K) (cfg : Cfg K Int) (st : SL K Int × Option K) (t : List
       | _, _ => false
     (stepList io cfg s t).map fun r => r.map fun (s', o) => ((s', if drops then none else held), o)
 
+/-! ### the pointer-level model in lockstep
+
+Every case is run on BOTH models: the levels-as-lists model `SL` (answers) and the pointer-level
+model `PSL` (`Model/C02Ptr.lean`: node heap with ids, towers of `next` pointers, pointer writes in
+the coded order).  The tower dump that is compared with the reflected heap of the real list is
+printed from the POINTER model (`key#id` per node object); the answers of the two models are
+compared here as well (`MODEL-DISAGREE` can never be printed: `c02_pointer_refines_levels`). -/
+
+def showTowersP (io : KeyIO K) (p : PSL K Int) : String :=
+  match p.head with
+  | none => s!"L={p.level} n={p.len} nil"
+  | some h =>
+    let chains := (List.range h.size).map fun i =>
+      (p.chain i).map fun id => (match p.keyOf id with | some k => io.show_ k | none => "?") ++ "#" ++ toString id
+    let chains := (chains.reverse.dropWhile List.isEmpty).reverse
+    s!"L={p.level} n={p.len} " ++ "/".intercalate (chains.map fun l => " ".intercalate l)
+
+def showTowerLensP (p : PSL K Int) : String :=
+  match p.head with
+  | none => s!"L={p.level} n={p.len} lens=nil"
+  | some h =>
+    let lens := (List.range h.size).map fun i => (p.chain i).length
+    let lens := (lens.reverse.dropWhile (· == 0)).reverse
+    s!"L={p.level} n={p.len} lens=" ++ ",".intercalate (lens.map toString)
+
+def showNodeP (io : KeyIO K) (p : PSL K Int) (id : Nat) : Option String :=
+  match p.nodes[id]?, p.nodeNext id with
+  | some nd, some nx =>
+    let nxs := match nx with
+      | none => some "nil"
+      | some j => (p.keyOf j).map io.show_
+    nxs.map fun x => s!"{io.show_ nd.key} {nd.val} next={x}"
+  | _, _ => none
+
+def fillLoopP (cfg : Cfg K Int) (ofInt : Int → K) (tall : Bool) (lo step : Int) :
+    Nat → Nat → Nat → PSL K Int → Nat → Option (PSL K Int × Nat)
+  | 0, _, _, p, cnt => some (p, cnt)
+  | n + 1, i, x, p, cnt =>
+    let x' := lcg x
+    match p.set cfg (ofInt (lo + step * i)) (1000 + i) 2 (bulkWord tall x') with
+    | none => none
+    | some (p', ok) => fillLoopP cfg ofInt tall lo step n (i + 1) x' p' (if ok then cnt + 1 else cnt)
+
+def rmLoopP (cfg : Cfg K Int) (ofInt : Int → K) (lo step : Int) (total order stride : Nat) :
+    Nat → Nat → PSL K Int → Nat → Option (PSL K Int × Nat)
+  | 0, _, p, cnt => some (p, cnt)
+  | n + 1, i, p, cnt =>
+    let idx := if order == 0 then i else if order == 1 then total - 1 - i else (i * stride) % total
+    match p.remove cfg (ofInt (lo + step * idx)) with
+    | none => none
+    | some (p', _, ok) => rmLoopP cfg ofInt lo step total order stride n (i + 1) p' (if ok then cnt + 1 else cnt)
+
+/-- The same operation on the pointer model: outer `none` = not mirrored (reads through handles,
+malformed lines); inner `none` = panic; the answer (if any) must equal the list model's. -/
+def stepPtr (io : KeyIO K) (cfg : Cfg K Int) (p : PSL K Int) (heldKey : Option K) (t : List String) :
+    Option (Option (PSL K Int × Option String)) :=
+  let setOp (mode : Nat) (k v r : String) (sh : Bool → String) : Option (Option (PSL K Int × Option String)) :=
+    match io.parse k, v.toInt?, r.toNat? with
+    | some k, some v, some r =>
+      if r < 2 ^ 64 then some ((p.set cfg k v mode r).map fun (p', ok) => (p', some (sh ok))) else none
+    | _, _, _ => none
+  let kvs (r : Option (List (K × Int))) : Option (PSL K Int × Option String) := r.map fun xs => (p, some (showKVs io xs))
+  match t with
+  | ["set", k, v, r] => setOp 0 k v r fun _ => "ok"
+  | ["setx", k, v, r] => setOp 1 k v r showBool
+  | ["setnx", k, v, r] => setOp 2 k v r showBool
+  | ["get", k] => (io.parse k).map fun k => (p.get cfg k).map fun (v, ok) => (p, some s!"{v} {showBool ok}")
+  | ["getnode", k] => (io.parse k).map fun k =>
+      match p.getNode cfg k with
+      | none => none
+      | some none => some (p, some "nil")
+      | some (some id) => (showNodeP io p id).map fun o => (p, some o)
+  | ["hold", k] => (io.parse k).map fun k =>
+      match p.getNode cfg k with
+      | none => none
+      | some none => some (p, some "nil")
+      | some (some id) => (showNodeP io p id).map fun o => (p, some o)
+  | ["setnode", k, v] =>
+    match io.parse k, v.toInt? with
+    | some k, some v =>
+      some (match p.getNode cfg k with
+        | none => none
+        | some none => some (p, some "nil")
+        | some (some id) => some (p.setNodeValue id v, some "ok"))
+    | _, _ => none
+  | ["heldset", v] => v.toInt?.map fun v =>
+      match heldKey with
+      | none => some (p, some "none")
+      | some k => match p.getNode cfg k with
+        | some (some id) => some (p.setNodeValue id v, some "ok")
+        | _ => none
+  | ["held"] => some (match heldKey with
+      | none => some (p, some "none")
+      | some k => match p.getNode cfg k with
+        | some (some id) => (showNodeP io p id).map fun o => (p, some o)
+        | _ => none)
+  | ["heldwalk"] => some (match heldKey with
+      | none => some (p, some "none")
+      | some k => match p.getNode cfg k with
+        | some (some id) => kvs (p.walkNodes p.fuel (some id))
+        | _ => none)
+  | ["rm", k] => (io.parse k).map fun k =>
+      (p.remove cfg k).map fun (p', v, ok) => (p', some s!"{v} {showBool ok}")
+  | ["clear"] => some (some (p.clear cfg, some "ok"))
+  | ["init"] => some (some (p.doInit, some "ok"))
+  | ["len"] => some (some (p, some (toString p.len)))
+  | ["head"] => some (match p.headNode with
+      | none => none
+      | some none => some (p, some "nil")
+      | some (some id) => (p.nodes[id]?).map fun nd => (p, some s!"{io.show_ nd.key} {nd.val}"))
+  | ["keys"] => some ((p.keys cfg).map fun ks => (p, some (showKeys io ks)))
+  | ["values"] => some ((p.values cfg).map fun vs => (p, some (showInts vs)))
+  -- `SkipList.Range` is the `cur.next[0]` loop; `SkipListWithCmp.Range` and both `All` are the `e = e.next[0]` loop
+  | ["range", n] => n.toNat?.map fun n => kvs (if cfg.lazy then p.rangeCur cfg n else p.rangeE cfg n)
+  | ["all", n] => n.toNat?.map fun n => kvs (p.rangeE cfg n)
+  | ["seqrange", _, n] => n.toNat?.map fun n => (p.rangeE cfg n).map fun _ => (p, none)
+  | ["rfrom", st, n] =>
+    match io.parse st, n.toNat? with
+    | some st, some n => some (kvs (p.rangeFrom cfg st none n))
+    | _, _ => none
+  | ["rrange", st, e, n] =>
+    match io.parse st, io.parse e, n.toNat? with
+    | some st, some e, some n => some (kvs (p.rangeFrom cfg st (some e) n))
+    | _, _, _ => none
+  | ["walk"] => some (kvs p.walk)
+  | ["walkfrom", k] => (io.parse k).map fun k => kvs (p.walkFrom cfg k)
+  | ["fill", lo, hi, st, seed, kind] =>
+    match io.ofInt, lo.toInt?, hi.toInt?, st.toInt?, seed.toNat? with
+    | some ofInt, some lo, some hi, some st, some seed =>
+      let n := bulkCount lo hi st
+      if n > 100000 ∨ seed ≥ 2 ^ 64 ∨ (kind ≠ "nat" ∧ kind ≠ "tall") ∨ p.head.isNone then none
+      else some ((fillLoopP cfg ofInt (kind = "tall") lo st n 0 seed p 0).map fun (p', c) => (p', some (toString c)))
+    | _, _, _, _, _ => none
+  | ["rmrange", lo, hi, st, order, stride] =>
+    match io.ofInt, lo.toInt?, hi.toInt?, st.toInt?, stride.toNat? with
+    | some ofInt, some lo, some hi, some st, some stride =>
+      let n := bulkCount lo hi st
+      let o := if order = "asc" then some 0 else if order = "desc" then some 1 else if order = "stride" then some 2 else none
+      match o with
+      | none => none
+      | some o =>
+        if n > 100000 then none
+        else some ((rmLoopP cfg ofInt lo st n o stride n 0 p 0).map fun (p', c) => (p', some (toString c)))
+    | _, _, _, _, _ => none
+  | _ => none
+
 def slot? (k : String) : Option Nat :=
   match k.toNat? with
   | some n => if n < 4 then some n else none
@@ -299,9 +446,13 @@ def step (io : KeyIO K) (cfg : Cfg K Int) (st : (SL K Int × Option K) × List B
     | _, _ => none
   | _ => (stepH io cfg sh t).map fun r => r.map fun (sh', o) => ((sh', seqs), o)
 
-def withDump (io : KeyIO K) (dump : String) (out : String) (s : SL K Int) : String :=
-  if dump = "dump" then out ++ " | " ++ showTowers io s
-  else if dump = "vdump" then out ++ " | " ++ showTowerLens s
+/-- The dump is printed from the pointer model; `!MODEL-DISAGREE` if its abstraction is not the
+list model's state (cannot happen: `c02_pointer_refines_levels`). -/
+def withDump (io : KeyIO K) (dump : String) (out : String) (s : SL K Int) (p : PSL K Int) : String :=
+  if dump = "dump" then
+    out ++ " | " ++ showTowersP io p ++ (if p.absLv == s.lv && p.level == s.level && p.len == s.len then "" else " !MODEL-DISAGREE " ++ showTowers io s)
+  else if dump = "vdump" then
+    out ++ " | " ++ showTowerLensP p ++ (if showTowerLensP p == showTowerLens s then "" else " !MODEL-DISAGREE " ++ showTowerLens s)
   else out
 
 /-- The comparators of `SkipListWithCmp` cases, by name. -/
@@ -320,27 +471,38 @@ def strCmp? (c : String) : Option (List Nat → List Nat → Int) :=
 `SkipListWithCmp` (re-configuration: everything is reset and the NEW comparator rules from then
 on; held Seq values stay valid — they are closures over the list object). -/
 def runOps (io : KeyIO K) (tbl : String → Option (K → K → Int)) (cfg : Cfg K Int) (dump : String) :
-    Option ((SL K Int × Option K) × List Bool) → List String → List String
+    Option (((SL K Int × Option K) × List Bool) × PSL K Int) → List String → List String
   | _, [] => []
   | none, _ :: ls => "dead" :: runOps io tbl cfg dump none ls
-  | some s, l :: ls =>
+  | some (s, p), l :: ls =>
     match toks l with
     | ["initcmp", c] =>
       match (if cfg.lazy then none else tbl c) with
-      | none => "bad-op" :: runOps io tbl cfg dump (some s) ls
+      | none => "bad-op" :: runOps io tbl cfg dump (some (s, p)) ls
       | some f =>
         let s' : (SL K Int × Option K) × List Bool := ((SL.init, none), s.2)
-        withDump io dump "ok" s'.1.1 :: runOps io tbl { cfg with cmp := f } dump (some s') ls
+        let p' := p.doInit
+        withDump io dump "ok" s'.1.1 p' :: runOps io tbl { cfg with cmp := f } dump (some (s', p')) ls
     | t =>
       match step io cfg s t with
-      | none => "bad-op" :: runOps io tbl cfg dump (some s) ls
+      | none => "bad-op" :: runOps io tbl cfg dump (some (s, p)) ls
       | some none => "panic" :: runOps io tbl cfg dump none ls
-      | some (some (s', out)) => withDump io dump out s'.1.1 :: runOps io tbl cfg dump (some s') ls
+      | some (some (s', out)) =>
+        -- the same call on the pointer model
+        match stepPtr io cfg p s.1.2 t with
+        | none => withDump io dump out s'.1.1 p :: runOps io tbl cfg dump (some (s', p)) ls
+        | some none => ("MODEL-DISAGREE pointer model panics, list model answers " ++ out) :: runOps io tbl cfg dump none ls
+        | some (some (p', outP)) =>
+          let out' := match outP with
+            | none => out
+            | some o => if o == out then out else "MODEL-DISAGREE list=" ++ out ++ " pointer=" ++ o
+          withDump io dump out' s'.1.1 p' :: runOps io tbl cfg dump (some (s', p')) ls
 
 def runWith (io : KeyIO K) (tbl : String → Option (K → K → Int)) (cfg : Cfg K Int) (kind : String) (dump : String)
     (ops : List String) : List String :=
   let s0 : SL K Int := if kind = "zero" then SL.zero else SL.init
-  withDump io dump "ok" s0 :: runOps io tbl cfg dump (some ((s0, none), [false, false, false, false])) ops
+  let p0 : PSL K Int := if kind = "zero" then PSL.zero else PSL.init
+  withDump io dump "ok" s0 p0 :: runOps io tbl cfg dump (some (((s0, none), [false, false, false, false]), p0)) ops
 
 def bad (ops : List String) : List String := "bad-op" :: ops.map fun _ => "bad-op"
 
